@@ -331,6 +331,11 @@ static int remoteSync(MPT_INTERFACE(output) *out, int timeout)
 		}
 		mpt_log(0, _func, MPT_LOG(Error), "%s (%" PRIx64 ")",
 		        MPT_tr("bad reply id"), ansid);
+		/* refused reply must not remain as output data */
+		if (!(od->con.out.state & MPT_OUTFLAG(Active))
+		    && (buf = od->con.out.buf._buf)) {
+			buf->_used = 0;
+		}
 		return MPT_ERROR(BadValue);
 	}
 }
